@@ -169,10 +169,68 @@ def alpha(o: Any, conv=num) -> dict:
 
 # ---------------------------------------------------------------------------
 # gamma
+#
+# Memory layout of the numpy arrays handed to pyttb's constructors is a PRESENTATION of the same abstract object: the
+# specification does not mention it, so every layout must behave alike.  core.py rotates the layout per behaviour.
+#   "default"  dense data F-contiguous, matrices / subscript arrays C-contiguous (what np.array gives)
+#   "swapped"  dense data C-contiguous, matrices / subscript / value arrays F-contiguous
+#   "strided"  every array is a non-contiguous view into a larger buffer
+LAYOUTS = ("default", "swapped", "strided")
+_LAYOUT = "default"
+
+
+def set_layout(name: str) -> None:
+    global _LAYOUT
+    assert name in LAYOUTS, name
+    _LAYOUT = name
+
+
+def get_layout() -> str:
+    return _LAYOUT
+
+
+def _strided(a: np.ndarray) -> np.ndarray:
+    """a non-contiguous view with the same content: every second element of a twice-as-large buffer along each axis"""
+    if a.size == 0 or a.ndim == 0:
+        return a
+    big = np.full(tuple(2 * s for s in a.shape), 77, dtype=a.dtype)
+    view = big[tuple(slice(0, 2 * s, 2) for s in a.shape)]
+    view[...] = a
+    return view
+
+
+def lay(a: np.ndarray, dense: bool = False) -> np.ndarray:
+    """present array `a` in the current layout (dense: a tensor's data array, otherwise a matrix / vector / subs array)"""
+    if _LAYOUT == "strided":
+        return _strided(a)
+    if _LAYOUT == "swapped":
+        return np.ascontiguousarray(a) if dense else np.asfortranarray(a)
+    return np.asfortranarray(a) if dense else np.ascontiguousarray(a)
+
+
+# element type of the arrays handed to pyttb: a second presentation coordinate, used where every value of the object is
+# an integer ("int": int64 storage).  Drivers opt in through set_dtype (core rotates it for the drivers listed there).
+_DTYPE = os.environ.get("VERIF_DTYPE", "float")      # development aid: force a dtype for experiments
+
+
+def set_dtype(name: str) -> None:
+    global _DTYPE
+    assert name in ("float", "int"), name
+    _DTYPE = name
+
+
+def _dt(values, dtype):
+    if dtype is float and _DTYPE == "int":
+        flat = np.asarray(values, dtype=float).reshape(-1)
+        if flat.size and np.all(flat == np.round(flat)) and np.all(np.abs(flat) < 2 ** 40):
+            return np.int64
+    return dtype
+
 
 def g_dense(v: dict, dtype=float):
+    dtype = _dt(v["v"], dtype)
     shape = tuple(v["shape"])
-    data = np.array(v["v"], dtype=dtype).reshape(shape, order="F") if shape else np.array([])
+    data = lay(np.array(v["v"], dtype=dtype).reshape(shape, order="F"), dense=True) if shape else np.array([])
     return ttb.tensor(data, shape)
 
 
@@ -180,20 +238,21 @@ def g_sparse(v: dict, dtype=float):
     shape = tuple(v["shape"])
     if len(v["subs"]) == 0:
         return ttb.sptensor(shape=shape)
-    subs = np.array(v["subs"], dtype=int).reshape(len(v["subs"]), len(shape))
-    vals = np.array(v["vals"], dtype=dtype).reshape(-1, 1)
+    subs = lay(np.array(v["subs"], dtype=int).reshape(len(v["subs"]), len(shape)))
+    vals = lay(np.array(v["vals"], dtype=_dt(v["vals"], dtype)).reshape(-1, 1))
     return ttb.sptensor(subs, vals, shape)
 
 
 def g_matrix(m, ncols=None, dtype=float):
     if len(m) == 0:
         return np.zeros((0, ncols or 0), dtype=dtype)
-    return np.array(m, dtype=dtype)
+    return lay(np.array(m, dtype=dtype))
 
 
 def g_ktensor(v: dict, dtype=float):
+    # (ktensor documents float factor matrices: no integer presentation)
     R = len(v["w"])
-    return ttb.ktensor([g_matrix(m, R, dtype) for m in v["U"]], np.array(v["w"], dtype=dtype))
+    return ttb.ktensor([g_matrix(m, R, dtype) for m in v["U"]], lay(np.array(v["w"], dtype=dtype)))
 
 
 def g_ttensor(v: dict, dtype=float, sparse_core=False):
